@@ -185,13 +185,16 @@ func (l *Location) ShouldModifyQuery() bool {
 
 // AddQuery add query to request
 func (l *Location) AddQuery(req *http.Request) {
-	query := req.URL.Query()
-	for key, values := range l.Query {
-		for _, value := range values {
-			query.Add(key, value)
-		}
+	// 只追加配置的query，客户端的query保持原样(不重新编码，避免改变顺序或丢失参数)
+	added := l.Query.Encode()
+	if added == "" {
+		return
 	}
-	req.URL.RawQuery = query.Encode()
+	if req.URL.RawQuery == "" {
+		req.URL.RawQuery = added
+		return
+	}
+	req.URL.RawQuery += "&" + added
 }
 
 func (l *Location) getPriority() int {
